@@ -21,6 +21,7 @@ RE = {
     "H": r"([0-9A-F][0-9A-F])+",
     "B": r"([cCsSiI](,[-+]?[0-9]+)+|f(,[-+]?[0-9]*\.?[0-9]+([eE][-+]?[0-9]+)?)+)",
     "name1": r"[!-)+-<>-~][!-~]*",
+    "pname1": r"[!-)+-<>-~][!-~]*",
     "seq1": r"\*|[A-Za-z=.]+",
     "orient": r"[+-]",
     "cigar1": r"\*|([0-9]+[MIDNSHPX=])+",
@@ -84,7 +85,7 @@ POS = {
     ("gfa1", "S"): ["name1", "seq1"],
     ("gfa1", "L"): ["name1", "orient", "name1", "orient", "cigar1"],
     ("gfa1", "C"): ["name1", "orient", "name1", "orient", "pos1", "cigar1"],
-    ("gfa1", "P"): ["name1", "seglist1", "cigar1_list"],
+    ("gfa1", "P"): ["pname1", "seglist1", "cigar1_list"],
     ("gfa2", "S"): ["id2", "slen", "seq2"],
     ("gfa2", "E"): ["optid2", "ref2", "ref2", "pos2", "pos2", "pos2", "pos2", "aln2"],
     ("gfa2", "F"): ["id2", "ref2", "pos2", "pos2", "pos2", "pos2", "aln2"],
@@ -272,9 +273,9 @@ def recognise_line(line, version=None, dialect="standard"):
     """
     if line == "":
         return (INVALID, "empty line")
-    if "\n" in line or "\r" in line:
-        return (UNSPEC, "raw newline in line")
     if line.startswith("#"):
+        if "\n" in line:
+            return (INVALID, "newline in comment")
         return (VALID, None)
     f = line.split("\t")
     rt = f[0]
@@ -314,7 +315,7 @@ def recognise_line(line, version=None, dialect="standard"):
             for t in tags:
                 n, d, val = TAGRE.fullmatch(t).groups()
                 if n in names:
-                    return (INVALID, "duplicate tag")
+                    return (UNSPEC, "duplicate tag in custom record (heuristic split)")
                 names.add(n)
                 vs.append(tag_value_verdict(d, val))
             r = worst(*vs)
@@ -381,7 +382,7 @@ def recognise_line(line, version=None, dialect="standard"):
     if rt == "H":
         vn = rec.tag("VN")
         if vn and vn[1] not in ("1.0", "2.0"):
-            return (INVALID, "VN value")
+            return worst(r, (UNSPEC, "VN value on a stand-alone line"))
         if vn and version == "gfa1" and vn[1] != "1.0":
             return (UNSPEC, "VN vs version on a stand-alone line")
         if vn and version == "gfa2" and vn[1] != "2.0":
